@@ -1,2 +1,3 @@
 import Generated.Facts
 import Generated.Arith
+import Generated.Tables
